@@ -1,6 +1,7 @@
 /-
   C01 — end-to-end dump reproduces the cluster's logical content (pgdump.go + catalog.go; the tree after
-  fixes/rows/01..05 and fixes/cluster/01).
+  fixes/rows/01..05 and fixes/cluster/01, 08 (pg_attribute through the real layouts) and 09 (rows of tables without
+  columns)).
 
   The model is parametric in the row reader `rr` (heap.go:ReadRows, area `rows`, whose refinement theorem is
   C03_file): the theorems here are about the catalog / filter / join / dump logic on top of ANY row reader.
@@ -8,6 +9,7 @@
 import PgVerif.Proofs.ClusterClass
 import PgVerif.Proofs.ClusterTree
 import PgVerif.Proofs.ClusterHyp
+import PgVerif.Proofs.ClusterDroppedTie
 import PgVerif.Props.C10.Cluster
 import PgVerif.Props.C10.Rows
 import PgVerif.Gen.Cluster
@@ -90,10 +92,9 @@ returns are, with their oid, name, filenode and kind, exactly the tables of the 
 lower-cased filter — each once, dead row versions ignored, in the same (filenode) order; for every iteration order
 of Go's table map, every pg_attribute content, every file reader and all options.
 
-`_partial`: the full `C01_dump` also equates each table's columns (join of pg_attribute by relation oid, attnum > 0
-in attnum order, layout detection) and rows (`Spec.expectedTable`) with the model's.  Those two parts are checked at
-run time on every generated cluster (family `cluster_dump`: model = spec outside the recorded classes A01z, A03,
-A04) and, at the row level, proved by area `rows` (`C03_file`); they are not proved here. -/
+`_partial`: the full `C01_dump` (below) also equates each table's columns (join of pg_attribute by relation oid,
+attnum > 0 in attnum order, layout choice) and rows (`Spec.expectedTable`) with the model's; this theorem is the part
+that holds for an arbitrary row reader. -/
 theorem C01_dump_partial (rr : RowReader) (π : MapOrder TableInfo) (hπ : ∀ l, π l ~ l) (val : Spec.Val) (o : Options)
     (db : Spec.DbRow) (d : Spec.DbContent) (cd ad : Bytes) (reader : Option FileReader) (rows : List Row)
     (hr : rr cd schemaPGClass true = .ok rows) (hrows : rows.map infoOfRow = d.cls.live.map infoOfRel)
@@ -122,10 +123,13 @@ live and dead row versions over any number of pages).  The scalar decoder `dec` 
 parameter: the catalog logic needs it only on the seven catalog column types (`CatDec dec`, which the decoder the
 families run satisfies: `catDec_local`); the rendering of user values is `varlenaVal dec`, i.e. C04's business.
 
-Findings carved out by explicit hypotheses: A04 (`SchemaOK`), A03 (`RelReadable.aligned`), A01z
-(`RelReadable.nonempty`).  Conditions every real cluster meets but `Spec.Cluster.WF` does not state are explicit too:
-attnums 1..n without gaps (`RelReadable.dense`), a dumped table's file name is not that of a catalog or of a
-non-heap relation (`DbDumpable.files`), attstattarget within PostgreSQL's range on the 12–15 layouts (in `SchemaOK`). -/
+No finding is carved out any more: A03 and A04 were repaired by fixes/cluster/08 (ParsePGAttribute reads the three real
+layouts, attalign included, and chooses the layout by looking at every row), A01z by fixes/cluster/09 (readTableRows);
+the former hypotheses `RelReadable.aligned`, `RelReadable.nonempty` and the first-five-rows clause of `SchemaOK` are gone.
+What remains explicit are conditions every real cluster meets but `Spec.Cluster.WF` does not state: attnums 1..n without
+gaps (`RelReadable.dense`), a dumped table's file name is not that of a catalog or of a non-heap relation
+(`DbDumpable.files`), a version hint — if one is given — that names the cluster's layout, and attstorage ∈ {p, e, m, x}
+when there is none (`SchemaOK`: what the automatic choice of the layout looks at, besides attalign). -/
 
 open PgVerif.Spec (Cluster DbContent Layout HeapOf AttrRow ClassRow DbRow)
 
@@ -152,29 +156,47 @@ theorem C01_tables (dec : Dec) (hd : CatDec dec) (π : MapOrder TableInfo) (hπ 
   obtain ⟨rows, hr, hrows⟩ := readRows_class dec hd d.cls hcls hwf.2.2.2.2.2.2.1
   exact C01_dump_partial (readRows dec) π hπ val o db d _ ad reader rows hr hrows hwf.2.2.1 hkind ts h
 
-/-- **ParsePGAttribute, every layout, hinted and auto-detected.**  For every pg_attribute heap encoded in one of
-PostgreSQL's three real layouts (row versions live and dead, any number of pages; names NUL-free ≤ 63 bytes, 32-bit
-oids, 16-bit attnum / attlen) in which no live (attrelid, attnum) pair repeats, and every version hint `ver` for which
-the tool's schema choice is the right one (`SchemaOK`: the hint agrees with the layout; or no hint and, on a 16 layout,
-the first five live rows carry attnum 1..5 — otherwise finding A04 — resp., on a 12–15 layout, the first live row's
-attstattarget is one PostgreSQL accepts): ParsePGAttribute returns, and for every relation oid `k` the entry of the
+/-- **ParsePGAttribute, every layout, hinted and chosen automatically.**  For every pg_attribute heap encoded in one of
+PostgreSQL's three real layouts (row versions live and dead, any number of pages, in ANY order; names NUL-free ≤ 63
+bytes, 32-bit oids, 16-bit attnum / attlen, attalign one of c/s/i/d) in which no live (attrelid, attnum) pair repeats, and
+every version hint `ver` with `SchemaOK` (the hint names the layout — 16+, 14–15, 12–13 —; or there is no hint and every
+live row's attstorage is one of p/e/m/x): ParsePGAttribute returns, and for every relation oid `k` the entry of the
 returned map is exactly the live rows of `k` with attnum > 0, in attnum order, dead versions and system attributes
-ignored, each with its catalog name, type oid, attnum and attlen (and, as `Align`, the byte the tool mistakes for
-attalign: `toolAlignByte`, finding A03). -/
+ignored, each with its catalog name, type oid, attnum, attlen and attalign character (`attrInfoOf`).  Nothing is
+assumed about which rows come first (the former finding A04) and `Align` is the real attalign (the former A03). -/
 theorem C01_attributes (dec : Dec) (hd : CatDec dec) (l : Layout) (att : HeapOf AttrRow) (ver : Nat) (hw : AttHeapWF l att)
     (hs : SchemaOK l att ver) (hnd : (att.live.map fun a => (a.relid, a.num)).Nodup) :
     ∃ m, parsePGAttribute (readRows dec) (Spec.encHeapOf (Spec.pgAttributeCols l) (Spec.attrVals l) att) (ver : Int) = .ok m ∧
-      ∀ k, 0 < k → (mapGet m k).getD [] = (Spec.userAttrs att k).map (attrInfoOf (toolAlignByte l)) :=
+      ∀ k, 0 < k → (mapGet m k).getD [] = (Spec.userAttrs att k).map attrInfoOf :=
   parsePGAttribute_enc dec hd l att ver hw hs hnd
 
-/-- the A04 hypothesis inside `SchemaOK` is the predicate the families tag `kf:A04` with -/
-theorem C01_autodetect_class (d : DbContent) : firstFiveOK d.att.live = Gen.autoDetectOK .v16 d := rfl
+/-- **The automatic choice finds the layout** (readAttrRows without a version hint, the only mode the CLI has): on a
+pg_attribute heap of any of the three layouts with legal attstorage characters it returns the live rows read under the
+file's own layout — whatever the rows are, however few, in whatever order (a PostgreSQL 16 file need not begin with
+attnum 1..5: the former finding A04). -/
+theorem C01_layout_choice (dec : Dec) (hd : CatDec dec) (l : Layout) (att : HeapOf AttrRow) (hw : AttHeapWF l att)
+    (hst : ∀ a ∈ att.live, StorageOK a) :
+    readAttrRows (readRows dec) (Spec.encHeapOf (Spec.pgAttributeCols l) (Spec.attrVals l) att) 0 = .ok (att.live.map (attrRowOf dec l)) :=
+  readAttrRows_enc dec hd l att 0 hw (Or.inr (Or.inr (Or.inr ⟨by decide, hst⟩)))
+
+/-- the automatic choice is dropped.go's `readAttrRowsWithDropped` as area `dropped` models it (the same function over the
+same three layout tables), so that area's theorems about the choice speak about ParsePGAttribute's rows too -/
+theorem C01_layout_choice_shared (rr : RowReader) (data : Bytes) :
+    readAttrRows rr data 0 = readAttrRowsWithDropped rr data :=
+  catReadAttrRowsAuto_eq_dropped rr data
+
+/-- **DecodeTuple is handed the true alignment** (the former finding A03): the `Column` dumpTable builds from what
+ParsePGAttribute read carries the attribute's attalign, for every type — known to `typeAlign` or not, a dropped column
+(atttypid 0) included. -/
+theorem C01_attalign (a : AttrRow) (h : a.align = 1 ∨ a.align = 2 ∨ a.align = 4 ∨ a.align = 8) :
+    colAlign (toolColumn a) = a.align :=
+  toolColumn_align a h
 
 /-- **The tool's type names are PostgreSQL's** for every type oid the specification names. -/
 theorem C01_typenames : ∀ p ∈ Spec.typeNames, Model.typeName (p.1 : Int) = strBytes p.2 := typeNames_agree
 
 /-- **Columns of every dumped table = the catalog join.**  For every well-formed database content in every layout and
-every options / version hint with the right schema choice (`SchemaOK`, A04 carved out), whatever the heap files and
+every options / version hint with `SchemaOK` (a hint, if given, names the layout), whatever the heap files and
 the file reader are: the tables DumpDatabaseFromFiles returns are the specification's tables and each carries exactly
 the specification's columns — the live pg_attribute rows of the relation's oid with attnum > 0, in attnum order, with
 catalog name, type oid and (for the type oids the specification names; the others' text is blanked by `normCol`)
@@ -198,18 +220,18 @@ theorem C01_databases (dec : Dec) (hd : CatDec dec) (π : MapOrder TableInfo) (c
   dumpDataDir_databases dec hd π c o val (Spec.fsOf c) hwf (treeOf_fsOf c hwf.2.2.2.2.2.1) r h
 
 /-- **Rows of one table = the live rows of its heap file, decoded.**  For a live ordinary table of a well-formed
-database whose heap is readable (`RelReadable`: attnums without gaps, the tool's alignment fallback is the true
-alignment — else A03 —, a table without columns has no live row — else A01z), dumpTable called with the catalog's
-columns and a reader serving the encoded heap returns the specification's table: rows = the row versions of the heap
-whose own hint bits say live, in page then line-pointer order, each decoded to what was stored (`Spec.rowOf`: NULLs,
-every varlena form, attributes beyond the stored count), `RowCount` = their number; none when schema-only. -/
+database whose attnums have no gaps (`RelReadable`), dumpTable called with the catalog's columns and a reader serving
+the encoded heap returns the specification's table: rows = the row versions of the heap whose own hint bits say live,
+in page then line-pointer order, each decoded to what was stored (`Spec.rowOf`: NULLs, every varlena form, attributes
+beyond the stored count; every column read at its catalog alignment — the former A03 —; the empty row `{}` for each live
+row of a table without columns — the former A01z), `RowCount` = their number; none when schema-only. -/
 theorem C01_rows (dec : Dec) (l : Layout) (d : DbContent) (o : Options) (r : ClassRow) (rd : FileReader)
     (hr : r ∈ d.cls.live) (hkind : r.kind = 114) (hfn : r.filenode ≠ 0) (hwf : d.WF l)
     (hreader : o.listOnly = false →
       rd r.filenode = (d.heaps.lookup r.filenode).map (Spec.encRowPages (Spec.colsOfFilenode d r.filenode)))
-    (hok : ∀ pages, d.heaps.lookup r.filenode = some pages → o.listOnly = false → pages ≠ [] → RelReadable l d r)
+    (hok : ∀ pages, d.heaps.lookup r.filenode = some pages → o.listOnly = false → pages ≠ [] → RelReadable d r)
     (t : TableDump)
-    (h : dumpTable (readRows dec) r.filenode (infoOfRel r) ((Spec.userAttrs d.att r.oid).map (attrInfoOf (toolAlignByte l))) (some rd) o = .ok t) :
+    (h : dumpTable (readRows dec) r.filenode (infoOfRel r) ((Spec.userAttrs d.att r.oid).map attrInfoOf) (some rd) o = .ok t) :
     normTable t = Spec.expectedTable (varlenaVal dec) d o r :=
   dumpTable_spec dec l d o r rd hr hkind hfn hwf hreader hok t h
 
@@ -217,8 +239,9 @@ theorem C01_rows (dec : Dec) (l : Layout) (d : DbContent) (o : Options) (r : Cla
 (`Spec.Cluster.WF`: PostgreSQL 12–16, any databases, relations of every kind, catalog and user heaps of live and dead
 row versions over any number of pages, inline values of every form), all options `o` (database filter, table filter,
 schema-only, skip-system, version hint), every iteration order of Go's maps and every scalar decoder that handles the
-catalog column types — provided every database that is dumped is `DbDumpable` (the schema choice is right: not A04;
-its dumped tables' heaps are readable: not A03, not A01z, attnums dense; their files are theirs alone):
+catalog column types — provided every database that is dumped is `DbDumpable` (a version hint, if given, names the
+layout, and attstorage characters are legal; its dumped tables' attnums are dense; their files are theirs alone — no
+recorded finding is excluded any more):
 whenever DumpDataDir on the cluster's file tree returns, its result is — database by database in pg_database order,
 table by table in filenode order, column by column, row by row — `Spec.expectedDump`: every non-template database
 passing the filter that has a directory; in it every ordinary table (relkind `r`, relfilenode ≠ 0) passing the
@@ -268,13 +291,6 @@ theorem C01_dump_checked (dec : Dec) (hd : CatDec dec) (π : MapOrder TableInfo)
 /-- the decoder the C01 families execute satisfies the decoder hypothesis -/
 theorem C01_catDec_local : CatDec LocalDec.dec := catDec_local
 
-/-- where the A03 hypothesis `RelReadable.aligned` comes from: on every layout the tool ends up with its
-`typeAlign(typid, attlen)` fallback (for every type modifier PostgreSQL produces), so the hypothesis says
-`typeAlign a.typid a.len = a.align` — the complement of the recorded class A03. -/
-theorem C01_toolAlign (l : Layout) (a : AttrRow) (h : l ≠ .v16 ∨ (-16777216 ≤ a.typmod ∧ a.typmod < 16777216)) :
-    colAlign (toolColumn (toolAlignByte l) a) = typeAlign a.typid a.len :=
-  toolAlign_fallback l a h
-
 /-! ### non-vacuity: a concrete cluster satisfies every hypothesis of `C01_dump` -/
 
 def exAttr (relid : Nat) (num : Int) (name : Bytes) (typid : Nat) (len : Int) (align : Nat) : Spec.Stored AttrRow :=
@@ -320,20 +336,12 @@ theorem exCluster_WF : exCluster.WF := by
   subst this
   exact exDb_WF
 
-/-- the example database is dumpable without a version hint (auto-detection) and with the true one -/
+/-- the example database is dumpable without a version hint (automatic choice) and with the true one -/
 theorem exDb_dumpable (o : Options) (hv : o.pgVersion = 0 ∨ o.pgVersion = 14) : DbDumpable .v14 exDb o := by
   refine ⟨?_, ?_, ?_⟩
   · rcases hv with hv | hv <;> rw [hv]
-    · refine Or.inr (Or.inr ⟨by decide, Or.inr ⟨by decide, ?_⟩⟩)
-      intro a ha
-      have : a = (exAttr 16384 1 [105, 100] 23 4 4).val := by
-        have hlive : exDb.att.live.head? = some (exAttr 16384 1 [105, 100] 23 4 4).val := by decide
-        rw [hlive] at ha
-        injection ha with ha
-        exact ha.symm
-      subst this
-      decide
-    · exact Or.inr (Or.inl ⟨by decide, by decide, by decide⟩)
+    · exact Or.inr (Or.inr (Or.inr ⟨by decide, by decide⟩))
+    · exact Or.inr (Or.inl ⟨by decide, by decide, rfl⟩)
   · intro r hr _
     have hlive : exDb.cls.live = [{ oid := 16384, name := [116], kind := 114, filenode := 16390 }] := by decide
     rw [hlive] at hr
@@ -346,19 +354,10 @@ theorem exDb_dumpable (o : Options) (hv : o.pgVersion = 0 ∨ o.pgVersion = 14) 
     have : r = { oid := 16384, name := [116], kind := 114, filenode := 16390 } := by simpa using hr
     subst this
     have hu : Spec.userAttrs exDb.att 16384 = [(exAttr 16384 1 [105, 100] 23 4 4).val, (exAttr 16384 2 [110] 25 (-1) 4).val] := by decide
-    refine ⟨?_, ?_, ?_⟩
-    · show DenseFrom 0 (Spec.userAttrs exDb.att 16384)
-      rw [hu]
-      exact ⟨rfl, rfl, trivial⟩
-    · show ∀ a ∈ Spec.userAttrs exDb.att 16384, _
-      rw [hu]
-      intro a ha
-      rw [toolAlign_fallback _ a (Or.inl (by decide))]
-      have : a = (exAttr 16384 1 [105, 100] 23 4 4).val ∨ a = (exAttr 16384 2 [110] 25 (-1) 4).val := by simpa using ha
-      rcases this with rfl | rfl <;> decide
-    · show Spec.userAttrs exDb.att 16384 = [] → _
-      rw [hu]
-      intro h; cases h
+    refine ⟨?_⟩
+    show DenseFrom 0 (Spec.userAttrs exDb.att 16384)
+    rw [hu]
+    exact ⟨rfl, rfl, trivial⟩
 
 example (o : Options) (hv : o.pgVersion = 0 ∨ o.pgVersion = 14) :
     ∀ db ∈ exCluster.dbs.live, Spec.selectedDb o db = true → ∀ d, exCluster.content.lookup db.oid = some d →
@@ -385,6 +384,145 @@ example : ((Spec.expectedDump (fun b _ => pure (.int b.length)) exCluster {}).ma
   simp only [strBytes_eq]
   decide
 
+/-! ### the witnesses of the three repaired findings lie inside the theorem
+
+The clusters of the fixed cases 1, 2, 3 of family `cluster_dump` (minus the template database and the bootstrap rows of
+pg_attribute, which play no role): before fixes/cluster/08 and 09 each violated a hypothesis of `C01_dump` (`RelReadable.nonempty`,
+`SchemaOK`'s first-five-rows clause, `RelReadable.aligned`); now each is well-formed, passes the run-time check, and the
+theorem says its dump is the expected one — which holds the rows that used to be lost. -/
+
+def exMiniDb (att : List (Spec.Stored AttrRow)) (heap : List (List Spec.RowV)) : DbContent :=
+  { cls := [[⟨{ oid := 16384, name := [116], kind := 114, filenode := 16390 }, 0x0900⟩]],
+    att := [att], heaps := [(16390, heap)], raws := [] }
+
+def exMini (pgVersion : Nat) (d : DbContent) : Cluster :=
+  { pgVersion, dbs := [[⟨{ oid := 5, name := [112, 103] }, 0x0900⟩]], content := [(5, d)] }
+
+/-- former A01z: `CREATE TABLE t (); INSERT INTO t DEFAULT VALUES` -/
+def exA01zHeap : List (List Spec.RowV) := [[{ vals := [], natts := 0, infomask := 0x0900 }]]
+def exA01zDb : DbContent := exMiniDb [] exA01zHeap
+def exA01z : Cluster := exMini 14 exA01zDb
+
+/-- former A04: a PostgreSQL 16 pg_attribute of two rows, attnum 2 before attnum 1, read without a version hint -/
+def exA04Heap : List (List Spec.RowV) := [[{ vals := [some (.fixed (le 4 7)), some (.short [97])], natts := 2, infomask := 0x0900 }]]
+def exA04Db : DbContent := exMiniDb [exAttr 16384 2 [110] 25 (-1) 4, exAttr 16384 1 [105, 100] 23 4 4] exA04Heap
+def exA04 : Cluster := exMini 16 exA04Db
+
+/-- former A03: a dropped `name` column (atttypid 0, attlen 64, attalign 'c') between a bool and an int4 -/
+def exA03Heap : List (List Spec.RowV) :=
+  [[{ vals := [some (.fixed [1]), some (.fixed ([111, 108, 100] ++ zeros 61)), some (.fixed (le 4 42))], natts := 3, infomask := 0x0900 }]]
+def exA03Db : DbContent :=
+  exMiniDb [exAttr 16384 1 [102] 16 1 1,
+            ⟨{ relid := 16384, name := [46, 112, 103, 46, 100, 46, 50, 46], typid := 0, len := 64, num := 2, align := 1, dropped := true }, 0x0900⟩,
+            exAttr 16384 3 [110] 23 4 4] exA03Heap
+def exA03 : Cluster := exMini 14 exA03Db
+
+set_option maxRecDepth 20000 in
+theorem exA01zDb_WF : exA01zDb.WF .v14 := by
+  unfold DbContent.WF
+  refine ⟨by decide, by decide, by decide, by decide, by decide, by decide, by decide, by decide, by decide, ?_⟩
+  intro h hh
+  have : h = (16390, exA01zHeap) := by simpa [exA01zDb, exMiniDb] using hh
+  subst this
+  refine ⟨by decide, ?_⟩
+  simp only
+  refine ⟨by decide, by decide, by decide⟩
+
+set_option maxRecDepth 20000 in
+theorem exA01z_WF : exA01z.WF := by
+  unfold Cluster.WF
+  have hl : Spec.locale = [101, 110, 95, 85, 83, 46, 85, 84, 70, 45, 56] := by unfold Spec.locale; rw [strBytes_eq]; rfl
+  refine ⟨by decide, by decide, by decide, by decide, ?_, by decide, ?_⟩
+  · simp only [exA01z, exMini, Spec.dbVals, hl]
+    decide
+  intro p hp
+  have : p = (5, exA01zDb) := by simpa [exA01z, exMini] using hp
+  subst this
+  exact exA01zDb_WF
+
+set_option maxRecDepth 20000 in
+theorem exA04Db_WF : exA04Db.WF .v16 := by
+  unfold DbContent.WF
+  refine ⟨by decide, by decide, by decide, by decide, by decide, by decide, by decide, by decide, by decide, ?_⟩
+  intro h hh
+  have : h = (16390, exA04Heap) := by simpa [exA04Db, exMiniDb] using hh
+  subst this
+  refine ⟨by decide, ?_⟩
+  simp only
+  refine ⟨by decide, by decide, by decide⟩
+
+set_option maxRecDepth 20000 in
+theorem exA04_WF : exA04.WF := by
+  unfold Cluster.WF
+  have hl : Spec.locale = [101, 110, 95, 85, 83, 46, 85, 84, 70, 45, 56] := by unfold Spec.locale; rw [strBytes_eq]; rfl
+  refine ⟨by decide, by decide, by decide, by decide, ?_, by decide, ?_⟩
+  · simp only [exA04, exMini, Spec.dbVals, hl]
+    decide
+  intro p hp
+  have : p = (5, exA04Db) := by simpa [exA04, exMini] using hp
+  subst this
+  exact exA04Db_WF
+
+set_option maxRecDepth 20000 in
+theorem exA03Db_WF : exA03Db.WF .v14 := by
+  unfold DbContent.WF
+  refine ⟨by decide, by decide, by decide, by decide, by decide, by decide, by decide, by decide, by decide, ?_⟩
+  intro h hh
+  have : h = (16390, exA03Heap) := by simpa [exA03Db, exMiniDb] using hh
+  subst this
+  refine ⟨by decide, ?_⟩
+  simp only
+  refine ⟨by decide, by decide, by decide⟩
+
+set_option maxRecDepth 20000 in
+theorem exA03_WF : exA03.WF := by
+  unfold Cluster.WF
+  have hl : Spec.locale = [101, 110, 95, 85, 83, 46, 85, 84, 70, 45, 56] := by unfold Spec.locale; rw [strBytes_eq]; rfl
+  refine ⟨by decide, by decide, by decide, by decide, ?_, by decide, ?_⟩
+  · simp only [exA03, exMini, Spec.dbVals, hl]
+    decide
+  intro p hp
+  have : p = (5, exA03Db) := by simpa [exA03, exMini] using hp
+  subst this
+  exact exA03Db_WF
+
+/-- the run-time form of the theorem's hypotheses accepts the three former witnesses (no version hint) -/
+example : Model.ClusterHyp.dumpHypB exA01z {} = true ∧ Model.ClusterHyp.dumpHypB exA04 {} = true ∧
+    Model.ClusterHyp.dumpHypB exA03 {} = true := by
+  simp only [Model.ClusterHyp.dumpHypB, Model.ClusterHyp.dumpableB, Spec.selectedDb, Spec.isTemplateName, Spec.selectedRel, strBytes_eq]
+  decide
+
+/-- **The three former witnesses are dumped correctly.**  On the file trees of the clusters that witnessed A01z (a table
+without columns holding a row), A04 (a PostgreSQL 16 pg_attribute that does not begin with attnum 1..5, no version
+hint) and A03 (a dropped `name` column before an int4), whenever DumpDataDir returns, its result is the expected dump —
+for every scalar decoder that handles the catalog types and every iteration order. -/
+theorem C01_former_witnesses (dec : Dec) (hd : CatDec dec) (π : MapOrder TableInfo) (hπ : ∀ l, π l ~ l) (c : Cluster)
+    (hc : c = exA01z ∨ c = exA04 ∨ c = exA03) (r : DumpResult) (h : dumpDataDir (readRows dec) π (Spec.fsOf c) {} = .ok (some r)) :
+    r.map normDb = Spec.expectedDump (varlenaVal dec) c {} := by
+  have hb : Model.ClusterHyp.dumpHypB exA01z {} = true ∧ Model.ClusterHyp.dumpHypB exA04 {} = true ∧
+      Model.ClusterHyp.dumpHypB exA03 {} = true := by
+    simp only [Model.ClusterHyp.dumpHypB, Model.ClusterHyp.dumpableB, Spec.selectedDb, Spec.isTemplateName, Spec.selectedRel, strBytes_eq]
+    decide
+  rcases hc with rfl | rfl | rfl
+  · exact C01_dump_checked dec hd π hπ _ exA01z_WF {} hb.1 r h
+  · exact C01_dump_checked dec hd π hπ _ exA04_WF {} hb.2.1 r h
+  · exact C01_dump_checked dec hd π hπ _ exA03_WF {} hb.2.2 r h
+
+/-- … and what is expected holds the rows that used to be lost: one empty row for the table without columns; two
+columns and one row for the PostgreSQL 16 table; three columns and one row of three values for the third -/
+example : ((Spec.expectedDump (fun b _ => pure (.int b.length)) exA01z {}).map fun d =>
+      d.tables.map fun t => (t.columns.length, t.rowCount, t.rows.map (·.length))) = [[(0, 1, [0])]] ∧
+    ((Spec.expectedDump (fun b _ => pure (.int b.length)) exA04 {}).map fun d =>
+      d.tables.map fun t => (t.columns.map (·.name), t.rowCount)) = [[([[105, 100], [110]], 1)]] ∧
+    ((Spec.expectedDump (fun b _ => pure (.int b.length)) exA03 {}).map fun d =>
+      d.tables.map fun t => (t.columns.length, t.rowCount, t.rows.map (·.length))) = [[(3, 1, [3])]] := by
+  delta Spec.expectedDump Spec.expectedDb Spec.selectedDb Spec.isTemplateName Spec.selectedRel
+  simp only [strBytes_eq]
+  refine ⟨?_, ?_, ?_⟩
+  · decide
+  · decide
+  · decide
+
 #print axioms C01_rowcount
 #print axioms C01_dump_partial
 #print axioms C01_rowcount_files
@@ -393,6 +531,9 @@ example : ((Spec.expectedDump (fun b _ => pure (.int b.length)) exCluster {}).ma
 #print axioms C01_class_reader
 #print axioms C01_tables
 #print axioms C01_attributes
+#print axioms C01_layout_choice
+#print axioms C01_layout_choice_shared
+#print axioms C01_attalign
 #print axioms C01_typenames
 #print axioms C01_columns
 #print axioms C01_databases
@@ -401,5 +542,6 @@ example : ((Spec.expectedDump (fun b _ => pure (.int b.length)) exCluster {}).ma
 #print axioms C01_dump_returns
 #print axioms C01_dump_checked
 #print axioms exCluster_WF
+#print axioms C01_former_witnesses
 
 end PgVerif.Props.C01
